@@ -189,6 +189,7 @@ func propC10(c feCase) hh.Verdict {
 	if res.NoIssues() != (len(spec.Issues) == 0) {
 		return hh.Fail("nil-ness: result nil=%v with %d expected issues", res.NoIssues(), len(spec.Issues))
 	}
+	processPrelude() // other executions run while the caller still holds this map: it stays the caller's
 	if msg := checkIssueMap(res, hasMsgOpts(c.Root)); msg != "" {
 		return hh.Fail("malformed issue map [%s/%s]: %s", c.Mode, c.FE, msg)
 	}
